@@ -26,7 +26,8 @@ EXPLANATION = (
     'R1 the state files a follow-up `meson setup` reads from meson-private (derived from the readers reachable from '
     'Environment.__init__ / MesonApp.__init__ / MesonApp._generate: coredata.dat, cmd_line.txt) are never opened for writing '
     'under their own name anywhere in mesonbuild/; every os.replace/os.rename onto them takes a different sibling name whose '
-    'writer has been closed on every path (file names folded symbolically through locals, helpers and callers); '
+    'writer has been closed on every path; they are never the *source* of a rename/move and are unlinked only inside an exception '
+    'handler after which every path re-raises (file names folded symbolically through locals, helpers and callers); '
     'R2 pickle_load converts what a truncated pickle raises (UnpicklingError, EOFError) into MesonException, '
     'Environment.__init__ answers FileNotFoundError / MesonException from coredata.load by regenerating (replaying cmd_line.txt '
     'when present), and the readers of cmd_line.txt never index a section of the parsed file without a presence guard; '
@@ -259,6 +260,18 @@ class Scan:
             if s.kind == 'write' and s.path is not None:
                 writes.append((s, ps.resolve(ref, s.path, env)))
         for s in sinks:
+            # a protected file must never be moved away: between that rename and the next publication it does not exist
+            if s.kind == 'rename' and s.src is not None:
+                srcs = ps.resolve(ref, s.src, env)
+                moved = sorted({b for b in (_prot_base(t, self.prot) for t in srcs) if b})
+                if moved:
+                    if len(moved) > 1 or any(_prot_base(t, self.prot) is None for t in srcs):
+                        self.undecided.append(f'{ref.mod.rel}:{ref.qn}: source of `{short(s.call)}` may or may not name {moved}: {P.show_all(srcs)}')
+                    else:
+                        self._rec('moved-away', ref, s.call, moved[0],
+                                  f'renames {P.show_all(srcs)} away: until it is published again {moved[0]} does not exist, a kill in that window '
+                                  f'leaves the build directory without it (back it up by copying instead)')
+        for s in sinks:
             if s.path is None:
                 continue
             dst = ps.resolve(ref, s.path, env)
@@ -273,7 +286,26 @@ class Scan:
             if s.kind == 'read':
                 continue
             if s.kind == 'remove':
-                self._rec('remove', ref, s.call, base, f'removes {base} ({P.show_all(dst)})')
+                # allowed only as a rollback: inside an exception handler, and no normal return is reachable after it
+                pm = ref.mod.parent_map()
+                cur: T.Optional[ast.AST] = s.call
+                in_handler = False
+                while cur is not None and cur is not fn:
+                    if isinstance(cur, ast.ExceptHandler):
+                        in_handler = True
+                    cur = pm.get(cur)
+                cfg = cfg or CFG(fn)
+                at = cfg.node_containing(s.call)
+                if not at:
+                    self.undecided.append(f'{where}: `{short(s.call)}` is not in the CFG')
+                    continue
+                reraises = all(not cfg.can_reach(n, cfg.exit_return) for n in at)
+                if in_handler and reraises:
+                    self._rec('remove-ok', ref, s.call, base, f'removes {P.show_all(dst)} only as a rollback: inside an exception handler, every path after it re-raises')
+                else:
+                    why = 'outside an exception handler' if not in_handler else 'in a handler that can return normally'
+                    self._rec('remove-bad', ref, s.call, base, f'removes {P.show_all(dst)} {why}: until it is published again {base} does not exist, '
+                              f'a kill in that window leaves the build directory without it')
                 continue
             if s.kind == 'write':
                 if s.mode is None:
@@ -439,6 +471,20 @@ def good(build_dir, text):
     with open(tmp, 'w') as f:
         f.write(text)
     os.replace(tmp, filename)
+
+def backup_by_rename(build_dir):
+    filename = _name(build_dir)
+    os.rename(filename, filename + '.prev')
+
+def unlink_first(build_dir):
+    os.unlink(_name(build_dir))
+
+def rollback(build_dir, work):
+    try:
+        work()
+    except Exception:
+        os.unlink(_name(build_dir))
+        raise
 '''
 
 
@@ -448,10 +494,12 @@ def _self_example(ctx: RuleCtx) -> None:
     sc = Scan(repo, [_EXAMPLE_REL], REFERENCE_PROTECTED)
     sc.run()
     got = sorted((r.kind, r.ref.qn) for r in sc.recs)
-    want = sorted([('inplace', 'inplace'), ('inplace', '_emit'), ('publish-bad', 'early'), ('publish-ok', 'good')])
+    want = sorted([('inplace', 'inplace'), ('inplace', '_emit'), ('publish-bad', 'early'), ('publish-ok', 'good'),
+                   ('moved-away', 'backup_by_rename'), ('remove-bad', 'unlink_first'), ('remove-ok', 'rollback')])
     if got != want or sc.undecided:
         raise AnalysisError(f'C09.R1 built-in example not classified as expected: {got} {sc.undecided}')
-    ctx.note('built-in example: in-place open (direct and through a helper parameter), rename inside the with-block and a correct temp+replace are classified as expected')
+    ctx.note('built-in example: in-place open (direct and through a helper parameter), rename inside the with-block, a correct temp+replace, '
+             'backup by rename, unlink outside a handler and a re-raising rollback are classified as expected')
 
 
 def _scope(ctx: RuleCtx) -> T.List[str]:
@@ -481,10 +529,13 @@ def r1(ctx: RuleCtx) -> None:
     n = 0
     for r in sc.recs:
         where = f'{r.ref.mod.rel}:{r.ref.qn}'
-        if r.kind == 'remove':
-            ctx.note(f'{where}: {r.text} (unlink is atomic; the directory becomes a partial build, see R3)')
-            continue
         n += 1
+        if r.kind == 'remove-ok':
+            ctx.ok(f'{where}: `{short(r.node)}` {r.text} (the directory becomes a partial build, see R3)')
+            continue
+        if r.kind in ('remove-bad', 'moved-away'):
+            ctx.violation(r.ref.mod, r.ref.qn, r.node, f'{r.base} is recovery-critical but `{short(r.node)}` {r.text}', r.node)
+            continue
         per[r.base] += 1
         if r.kind == 'publish-ok':
             ctx.ok(f'{where}: `{short(r.node)}` publishes {r.base} atomically: {r.text}')
